@@ -92,7 +92,18 @@ FAMILIES = {
     "unclosed-def-title": lambda L: "[a]: /u '" + rep_to("b\n", L), "def-then-lines": lambda L: "[a]: /u\n" + rep_to("b\n", L),
     "broken-defs": lambda L: rep_to("[a]: <\n", L), "label-long": lambda L: "[" + rep_to("a ", L) + "]: /u\n",
 }
-KNOWN_QUADRATIC = {"refdefs": "family:refdefs", "quote-heading-lazy": "family:quote-heading-lazy"}
+# the same inline constructs seen through the validation mode of the rules (skipToken): behind an unclosed
+# bracket / image bracket the label scan runs every rule silently
+for _name in ["stars", "star-words", "underscore-nest", "alternating-delims", "tilde-run", "tildes", "backtick-run", "backtick-ladder", "backtick-words",
+              "ampersands", "entities", "angles", "open-tags", "autolinks", "bad-autolinks", "backslashes", "escapes", "hardbreaks", "links", "images",
+              "unclosed-links", "parens", "quote-run"]:
+    FAMILIES["in-bracket:" + _name] = (lambda L, f=FAMILIES[_name]: "see [ref " + f(L))
+    FAMILIES["in-image:" + _name] = (lambda L, f=FAMILIES[_name]: "![alt " + f(L))
+FAMILIES["link-around-star-run"] = lambda L: "[a " + "*" * L + " b](/u)"
+FAMILIES["image-around-underscore-run"] = lambda L: "![a " + "_" * L + " b](/u)"
+
+FAMILIES["table-autocomplete"] = lambda L: "|a" * (L // 7) + "|\n" + "|-" * (L // 7) + "|\n" + "|c\n" * (L // 7)
+KNOWN_QUADRATIC = {"refdefs": "family:refdefs", "quote-heading-lazy": "family:quote-heading-lazy", "table-autocomplete": "family:table-autocomplete"}
 
 PRESETS = [
     ("commonmark", {"preset": "commonmark", "options": {}, "enable": [], "disable": [], "ruler2_off": []}),
